@@ -67,6 +67,8 @@ package dns
 //@   loop 1 invariant len(keys) == rangeindex + 1 && rangeindex < len(rrs)
 //@   loop 2 invariant 0 <= j && j <= rangeindex + 1 && rangeindex < len(rrs) && len(keys) == len(rrs)
 //@   assert at "mrh.Ttl = rh.Ttl" lower: rh.Ttl < mrh.Ttl
+// m is scratch space: an empty map handed in comes back empty, so that it can be handed in again
+//@   ensures scratch: m != nil && old(len(m)) == 0 ==> len(m) == 0
 
 // SVCB parameter lists are equal only if, pairwise after sorting, the keys are equal and the packed values
 // are equal: the values of a pair are looked at only after its keys have been compared
